@@ -36,9 +36,7 @@ def _ref_info(ref, events):
 
 def check_script(sqlparse, real, ref, events, style):
     info, end = _ref_info(ref, events)
-    text = sm.render(events, style)
-    exp = [sm.render(p, style).strip() for p in sm.expected_pieces([(e, s) for e, s, _ in info])]
-    exp = [p for p in exp if p]
+    text, exp = sm.render_pieces([(e, s) for e, s, _ in info], style)
     try:
         got = sqlparse.split(text)
         n_parse = len(sqlparse.parse(text))
@@ -104,10 +102,10 @@ def run(tier, seed):
     states = list(parent)
     if tier == 'quick':
         items = [(s, None) for s in states]
-        styles = (0, 2)
+        styles = (0, 2, 3)
     else:
         items = [(s, None) for s in states]
-        styles = (0, 1, 2)
+        styles = (0, 1, 2, 3)
     items = core.rotate(items, seed)
 
     def work(chunk):
@@ -118,6 +116,8 @@ def run(tier, seed):
             events = [e for e, _, _, _ in sm.trace_to(parent, ps)] + [e for e, _ in comp[ps[0]]]
             if not events:
                 continue
+            # a plain statement after the script makes a block that swallows what follows observable
+            events = events + ['select', 'name', ';']
             for style in styles:
                 text, bad = check_script(sp, rl, ref, events, style)
                 acc.case(text, True, outcome='conforms' if not bad else 'differs',
@@ -161,7 +161,7 @@ def replay(case):
     ref = sm.Ref(D)
     real = sm.Real()
     out = []
-    for style in (0, 1, 2):
+    for style in (0, 1, 2, 3):
         text, bad = check_script(sqlparse, real, ref, _complete(ref, case['events']), style)
         out.append(bad)
     bad = next((b for b in out if b), None)
